@@ -41,6 +41,9 @@ Definition ms_hi : Z := 9.
 Definition lw_lo : Z := 1.
 Definition lw_hi : Z := 3.
 Definition dropna_how : string := "all"%string.
+(* what init_mapped_dim does to the dataset, in order (see init_step), and how a panel is indexed *)
+Definition init_step_names : list string := ["stack"%string; "sel"%string; "dropna"%string].
+Definition panel_names : list string := ["row"%string; "col"%string].
 
 (* ------------------------------------------------------------------ style values *)
 (* np.linspace(lo, hi, N)[k] *)
